@@ -561,6 +561,10 @@ CORPUS = [
     {"first": 0, "then": [0, -1, "MISSING", "1", 0.0, None, True]},
     {"first": -3, "then": [-3, -4, "MISSING", 2.5]},
     {"first": 2**63, "then": [2**63, 2**63 - 1, 0, "MISSING", float(2**63)]},
+    # a verified signature re-used on other message bytes (seed C34-a remembered signature -> key without the message)
+    {"reuse_sig": True},
+    # other spellings of a genuine key string on genuinely signed stale / fresh announcements (seed C34-c accepted them as new identities)
+    {"spellings": True},
 ]
 
 
@@ -573,6 +577,25 @@ def corpus_case(spec):
     def honest(k, d):
         msg = json.dumps(d).encode("utf-8") if not isinstance(d, bytes) else d
         return [msg, b"v0-" + b2a(ed25519.sign_data(pool[k][0], msg)), pool[k][2]]
+    if "reuse_sig" in spec:
+        g = honest(0, {"service-name": "storage", "seqnum": 1, "nickname": "a", "x": 0})
+        batches = [[{"w": [enc(f) for f in g], "meta": {"kind": "new", "signer": 0, "claimed": 0, "intact": True}}]]
+        for j, svc in enumerate(["storage", "storage", "helper"]):
+            forged = json.dumps({"service-name": svc, "seqnum": 9 + j, "nickname": "attacker", "x": j,
+                                 "anonymous-storage-FURL": FURL_OK}).encode("utf-8")
+            batches.append([{"w": [enc(forged), enc(g[1]), enc(g[2])],
+                             "meta": {"kind": "flip-msg", "signer": 0, "claimed": 0, "intact": False}}])
+        return {"seeds": seeds, "subs": ["storage", "helper"], "batches": batches}
+    if "spellings" in spec:
+        ok = {"kind": "new", "signer": 0, "claimed": 0, "intact": True}
+        batches = [[{"w": [enc(f) for f in honest(0, {"service-name": "storage", "seqnum": 5, "nickname": "a", "x": 0})], "meta": ok}]]
+        key = pool[0][2]
+        variants = [b"v0-" + key[3:].upper(), key + b" ", key + b"\t ", b"v0-" + key[3:4].upper() + key[4:], key + b"\n"]
+        for j, (sq, kv) in enumerate([(4, variants[0]), (5, variants[1]), (6, variants[0]), (3, variants[2]), (7, variants[3]), (4, variants[4])]):
+            w = honest(0, {"service-name": "storage", "seqnum": sq, "nickname": "a", "x": j + 1})
+            w[2] = kv
+            batches.append([{"w": [enc(f) for f in w], "meta": dict(ok, kind="key-spelling", spelling="corpus")}])
+        return {"seeds": seeds, "subs": ["storage"], "batches": batches}
     if "first" in spec:
         ok = {"kind": "new", "signer": 0, "claimed": 0, "intact": True}
         batches = [[{"w": [enc(f) for f in honest(0, {"service-name": "storage", "seqnum": spec["first"], "nickname": "a", "x": 0})],
